@@ -185,7 +185,10 @@ def probe_routes(cfg, ops):
             k = op.get('a', {}).get('k')
             if k is not None and tuple(k) not in keys:
                 keys[tuple(k)] = len(keys)
-                f.set(km.to_py(k), len(keys) - 1)
+        # (in the reverse of the order in which the history meets them: a routing that remembers earlier keys - keys
+        #  that are equal in Python, like 1 and True, but two keys for the cache - shows as a conflict)
+        for k, v in reversed(list(keys.items())):
+            f.set(km.to_py(list(k)), v)
         byval = {v: k for k, v in keys.items()}
         route = {}
         for sh in range(cfg['shards']):
